@@ -47,7 +47,9 @@ func runLayouts(c *Ctx, names ...string) map[string]*layoutRun {
 				if fn == nil {
 					r.encErr = fmt.Errorf("unresolved anchor %s", u.enc)
 				} else {
-					r.enc, r.encErr = bits.New(c.Prog.SPkg).AnalyzeEncoder(fn)
+					be := bits.New(c.Prog.SPkg)
+					be.FieldConst, be.ListLen = u.encConst, u.encLens
+					r.enc, r.encErr = be.AnalyzeEncoder(fn)
 				}
 			}
 		}()
@@ -107,7 +109,7 @@ func checkC16(c *Ctx) {
 	r.RuleText = "C16-RT, C16-ENC, C16-DEC per unit; C16-CNT; C16-NR (not-received metric block decodes to zero fields); C16-ACC (13 corner shapes of the units — fixed length, some octets fixed, the rest arbitrary — none of which the unit decoder may reject on every path: the decoder side of 'over the whole domain')."
 	r.Trusted = []string{"go/ssa", "bit-provenance engine checker/bits (transfer functions of & | ^ &^ << >> conversions, + on disjoint bits, power-of-two * / %, encoding/binary big-endian accessors, copy/append on tracked buffers)", "layout tables written from the RFCs (props/layout.go)", "numeric engine for C16-CNT"}
 	r.Assume = []string{"values wider than their wire field are outside the identity claim (C08 decides whether they are rejected)"}
-	r.NotCov("StatusVectorChunk.Marshal (symbol positions computed in a data-dependent loop through a map lookup; its decoder IS decided), RecvDelta (scaled arithmetic: C13-SCALE/WIDTH); for the XR RLE chunk accessors only the bit selections of each return are decided, not which return is taken for which chunk type")
+	r.NotCov("StatusVectorChunk.Marshal with fewer symbols than fit (decided for full lists: 14 one-bit or 7 two-bit symbols; a shorter list leaves the remaining bits zero by the same loop) and with a SymbolSize outside {0,1} (finding F15); RecvDelta (scaled arithmetic: C13-SCALE/WIDTH); for the XR RLE chunk accessors only the bit selections of each return are decided, not which return is taken for which chunk type")
 
 	runs := runLayouts(c, c16Units...)
 	for _, name := range c16Units {
@@ -125,7 +127,7 @@ func checkC16(c *Ctx) {
 			r.Unk("C16-RT", name+"/analysable", pos, fmt.Sprintf("encoder: %v; decoder: %v", lr.encErr, lr.decErr))
 			continue
 		}
-		n, bad := roundTrip(lr.enc, lr.dec, lr.u.decAlt, layoutFields(lr.u))
+		n, bad := roundTrip(lr.enc, lr.dec, lr.u.decAlt, layoutFields(lr.u), lr.u.encConst)
 		r.Check(len(bad) == 0 && n > 0, "C16-RT", name+"/encode-decode-identity", pos, fmt.Sprintf("%d bit correspondences: every encoded field bit is decoded from the octet/bit it was written to, and vice versa", n), trunc(bad, 3))
 		n, bad = encVsSpec(lr.u, lr.enc)
 		r.Check(len(bad) == 0 && n > 0, "C16-ENC", name+"/encoder-matches-"+strings.Fields(lr.u.rfc)[0]+strings.Fields(lr.u.rfc)[1], pos, fmt.Sprintf("%d wire bits equal the layout of %s", n, lr.u.rfc), trunc(bad, 3))
@@ -137,7 +139,9 @@ func checkC16(c *Ctx) {
 		r.Check(len(bad) == 0 && n > 0, "C16-DEC", name+"/decoder-matches-"+strings.Fields(lr.u.rfc)[0]+strings.Fields(lr.u.rfc)[1], dpos, fmt.Sprintf("%d field bits equal the layout of %s", n, lr.u.rfc), trunc(bad, 3))
 	}
 	r.Floor("C16-UNIT", 9)
-	// StatusVectorChunk: decoder side only (the encoder places symbols through a data-dependent shift)
+	// StatusVectorChunk: one unit per symbol size. The encoder places the symbols in a loop whose shift
+	// comes from a table lookup on SymbolSize; it is evaluated once per symbol size with a full symbol list
+	// (14 one-bit or 7 two-bit symbols), which makes the loop a constant-trip loop the engine unrolls.
 	for _, name := range []string{"StatusVectorChunk/one-bit", "StatusVectorChunk/two-bit"} {
 		lr := runLayouts(c, name)[name]
 		if lr == nil || lr.decErr != nil || lr.dec == nil {
@@ -151,6 +155,18 @@ func checkC16(c *Ctx) {
 		}
 		n, bad := decVsSpec(lr.u, lr.dec)
 		r.Check(len(bad) == 0 && n > 0, "C16-DEC", name+"/decoder-matches-"+unitKey(lr.u), dpos, fmt.Sprintf("%d field bits equal the layout of %s (the two constant-trip loops are unrolled)", n, lr.u.rfc), trunc(bad, 3))
+		epos := "-"
+		if fn := p.Func(lr.u.enc); fn != nil {
+			epos = p.Pos(fn.Pos())
+		}
+		if lr.encErr != nil || lr.enc == nil {
+			r.Unk("C16-ENC", name+"/analysable", epos, fmt.Sprintf("encoder: %v", lr.encErr))
+			continue
+		}
+		n, bad = encVsSpec(lr.u, lr.enc)
+		r.Check(len(bad) == 0 && n > 0, "C16-ENC", name+"/encoder-matches-"+unitKey(lr.u), epos, fmt.Sprintf("%d wire bits equal the layout of %s (encoder evaluated with SymbolSize = %d and %d symbols: the symbol loop is unrolled, the shift table is read as a constant map)", n, lr.u.rfc, lr.u.encConst["SymbolSize"], lr.u.encLens["SymbolList"]), trunc(bad, 3))
+		n, bad = roundTrip(lr.enc, lr.dec, lr.u.decAlt, layoutFields(lr.u), lr.u.encConst)
+		r.Check(len(bad) == 0 && n > 0, "C16-RT", name+"/encode-decode-identity", epos, fmt.Sprintf("%d bit correspondences between the encoder (this symbol size, full list) and the decoder alternative it selects", n), trunc(bad, 3))
 	}
 	c16Accept(c)
 	// not-received metric block: canonical zero fields
